@@ -556,6 +556,18 @@ def _check_timeout(run, repo, world):
                        "unbounded await on a gateway-fed queue: a gateway "
                        "that stops answering hangs the caller with the lock "
                        "held", where(mod, a))
+            is_helper = isinstance(v, ast.Call) and isinstance(
+                v.func, ast.Attribute) and v.func.attr in (
+                    "wait_dali_raw_response",)
+            if is_helper:
+                # the thin helper awaits the queue without a bound: every
+                # caller has to wrap it in wait_for
+                n += 1
+                run.ob("R-TIMEOUT", "%s#%s" % (Q, t), False,
+                       "`%s` awaits a gateway-fed queue without a bound: it "
+                       "must be the argument of asyncio.wait_for(...), or a "
+                       "gateway that stops answering hangs the caller with "
+                       "the lock held" % t, where(mod, a))
             if is_wait_for:
                 inner = unparse(v.args[0]) if v.args else ""
                 if "_queue_" in inner or "wait_dali_raw_response" in inner:
